@@ -137,7 +137,8 @@ def make_interpolation_axis_data(
         """Determines data for interpolating along one axis."""
         # determine the index of the left cell and the fraction toward the right
         if cell_coords:
-            c_l, d_l = divmod(coord, 1.0)
+            # cell coordinates run from 0 to `size`, so cell centers are at i + 0.5
+            c_l, d_l = divmod(coord - 0.5, 1.0)
         else:
             c_l, d_l = divmod((coord - lo) / dx - 0.5, 1.0)
 
